@@ -344,6 +344,9 @@ func cmdCheck(args []string) int {
 				continue
 			}
 			violations++
+			if o.Status == "sat" && r.exec != nil && violations <= 6 {
+				r.exec.replayObligation(o, scratch, ov.pairs())
+			}
 			path := writeReplay(replayDir, prop, o, w)
 			suffix := ""
 			if !replayHasInput(o) {
@@ -443,6 +446,16 @@ func matchKnown(ks []KnownFinding, prop, name string) *KnownFinding {
 	return nil
 }
 
+func (o overlayFlag) pairs() map[string]string {
+	m := map[string]string{}
+	for _, kv := range o {
+		if i := strings.Index(kv, "="); i > 0 {
+			m[kv[:i]] = kv[i+1:]
+		}
+	}
+	return m
+}
+
 func replayHasInput(o *Obligation) bool {
 	return o.Replayed
 }
@@ -456,6 +469,7 @@ func writeReplay(dir, prop string, o *Obligation, w *World) string {
 		"status": o.Status, "solver": o.Solver, "goal": o.Goal, "path": o.Trace,
 		"solver_output_or_model": o.Model,
 		"replay":                 o.ReplayNote,
+		"replay_test_source":     o.ReplaySrc,
 	}
 	if len(o.SMT) < 400000 {
 		rec["smt"] = o.SMT
